@@ -885,7 +885,7 @@ API_SHAPES = {
     'seq': [(3, 1, (0, 0, 0), 'quick')],
 }
 API_SHAPES_FLAT = {
-    'par2': [(2, 1, (1, 0), 'quick')],
+    'par2': [(2, 1, (1, 0), 'quick'), (2, 2, (1,), 'thorough')],
     'seq': [(2, 1, (0, 0), 'quick')],
 }
 
